@@ -1365,8 +1365,16 @@ impl<'a> World<'a> {
             }
             Scenario::LearnedDurability => {
                 self.judge_store_shape(&what)?;
-                if tracks_learning && typed_ok && !ambiguous && !learning {
-                    // L3: committing the preselected candidate changes nothing.
+                let list_off = {
+                    let sp = self.slots[h as usize].as_ref().map(|s| s.host.spec);
+                    matches!(sp, Some(sp) if sp.is_phonetic() && !sp.lists())
+                };
+                if list_off {
+                    self.stats.bump("oracle.L3_judged_list_off");
+                }
+                if (tracks_learning && typed_ok && !ambiguous && !learning) || list_off {
+                    // L3: committing the preselected candidate changes nothing (with the list
+                    // off the one string shown is the only, hence the preselected, candidate).
                     self.stats.evaluations += 1;
                     self.stats.bump("oracle.L3_judged");
                     let a = store_before.as_deref().and_then(learn::parse_store);
@@ -2008,6 +2016,45 @@ impl<'a> World<'a> {
                     return Err(Stop::Violation(
                         "order-equivalence".into(),
                         format!("Unicode order with the option off gives {:?}, typewriter order with the option on gives {:?}", a, b),
+                    ));
+                }
+                // ... and offer it as the same first candidate (what a commit would take)
+                if let (Some(ca), Some(cb)) = (u.host.last.first_candidate(), t.host.last.first_candidate()) {
+                    self.stats.evaluations += 1;
+                    if ca != cb {
+                        return Err(Stop::Violation(
+                            "order-equivalence".into(),
+                            format!("both contexts compose {:?}, but the first candidate (text, pre-edit text) is {:?} with the option off and {:?} with it on", a, ca, cb),
+                        ));
+                    }
+                }
+            }
+            4 => {
+                // in the middle of a conjunct: both sides have typed "consonant + hasanta", T
+                // with the left-standing sign first, which is waiting again. Nothing T shows may
+                // differ from what U shows: the waiting sign is not shown
+                let a = u.host.last.shown_text().to_string();
+                let b = t.host.last.shown_text().to_string();
+                self.stats.evaluations += 1;
+                self.stats.bump("oracle.C14_midway_compared");
+                if a != b {
+                    return Err(Stop::Violation(
+                        "pending-sign-not-shown".into(),
+                        format!("after consonant + hasanta Unicode order shows {:?}, typewriter order (sign typed first, waiting again) shows {:?}", a, b),
+                    ));
+                }
+                if let (Some(ca), Some(cb)) = (u.host.last.first_candidate(), t.host.last.first_candidate()) {
+                    if ca != cb {
+                        return Err(Stop::Violation(
+                            "pending-sign-not-shown".into(),
+                            format!("after consonant + hasanta both contexts compose {:?}, but the first candidate (text, pre-edit text) is {:?} with the option off and {:?} with a sign waiting", a, ca, cb),
+                        ));
+                    }
+                }
+                if !t.host.last.session {
+                    return Err(Stop::Violation(
+                        "pending-sign-is-session".into(),
+                        format!("a sign is waiting (text {:?}) but no ongoing session is reported", b),
                     ));
                 }
             }
